@@ -37,7 +37,7 @@ var mains = map[string]func(map[string]string){
 	"c04": c04Main,
 	"c05": c05Main,
 	"c07": c07Main,
-	"c10": c10Main, "c08": c08Main, "c09": c09Main, "c15": c15Main, "c11p": c11pMain, "c13p": c13pMain,
+	"c10": c10Main, "c08": c08Main, "c09": c09Main, "c15": c15Main, "c11p": c11pMain, "c13p": c13pMain, "c12": c12Main,
 	"c11": c11Main,
 	"c13": c13Main,
 	"c19": c19Main,
@@ -98,7 +98,7 @@ func main() {
 			die("too many worker crashes")
 		}
 		fo, _ := os.OpenFile(args["out"], os.O_APPEND|os.O_CREATE|os.O_WRONLY, 0644)
-		ev, _ := json.Marshal(map[string]interface{}{"ev": "Crash", "i": m.I, "case": m.Case, "msg": tail(string(outb), 600)})
+		ev, _ := json.Marshal(map[string]interface{}{"ev": "Crash", "i": m.I, "case": m.Case, "msg": tail(string(outb), 600), "race": strings.Contains(string(outb), "DATA RACE")})
 		// make sure a partial last line does not swallow the event
 		fo.Write([]byte("\n"))
 		fo.Write(ev)
